@@ -90,9 +90,15 @@ class SpyCallback(AbstractCallback):
     without any host callback)."""
 
     inner: LoggingCallback
+    log_iter: bool = eqx.field(static=True)
 
-    def __init__(self, alpha=0.9):
+    def __init__(self, alpha=0.9, log_iter: bool = False):
         self.inner = LoggingCallback(RecordingBackend(), name="spy", alpha=alpha)
+        self.log_iter = log_iter
+
+    @property
+    def recorder(self) -> Recorder:
+        return self.inner._backends[0].rec
 
     def reset(self, ctx, *, key):
         return SpyState(None)
@@ -104,6 +110,9 @@ class SpyCallback(AbstractCallback):
         return self.inner.on_step(ctx, key=key)
 
     def on_iteration(self, ctx, *, key):
+        if self.log_iter:
+            # the real LoggingCallback.on_iteration (means over nodes, step sum, ordered host callbacks)
+            self.inner.on_iteration(eqx.tree_at(lambda c: (c.training_log, c.state), ctx, ({}, None), is_leaf=lambda x: x is None), key=key)
         return SpyState(ctx.training_log)
 
     def on_training_start(self, ctx, *, key):
